@@ -7,36 +7,11 @@ set_option linter.unusedSimpArgs false
 namespace MlModel.GenWiring
 open MlModel.Generated MlModel.Generated.Wiring MlModel.Agg.Confusion
 
-theorem evalInit_initTree (a : RawCfg) : evalInit a initTree = constructWrapper a := by
-  cases a with
-  | mk metrics single posLabel inputType average vocab kList =>
-    by_cases hs : average = "samples"
-    · subst hs
-      cases kList <;>
-        simp [initTree, evalInit, evalCond, evalSrc, rawEnv, truthy, kwRaw, setKw, ctorDefault, construct,
-          constructWrapper, errOf, List.foldlM, Option.bind, constructSamplewise]
-    · have hb : (average == "samples") = false := by simpa using hs
-      cases kList <;>
-        simp [initTree, evalInit, evalCond, evalSrc, rawEnv, truthy, kwRaw, setKw, ctorDefault, construct,
-          constructWrapper, errOf, List.foldlM, Option.bind, hb]
-
-theorem evalVerify_verifyTree (r : RawCfg) (b : Batch) : evalVerify r b verifyTree = verifyInput r b := by
-  cases r with
-  | mk metrics single posLabel inputType average vocab kList =>
-    by_cases ha : average = "binary" <;> by_cases hi : inputType = "binary"
-    · subst ha; subst hi
-      simp [verifyTree, evalVerify, evalCond, evalSrc, rawEnv, kwRaw, setKw, verifyInput, List.foldlM, Option.bind]
-    · have hb : (inputType == "binary") = false := by simpa using hi
-      subst ha
-      simp [verifyTree, evalVerify, evalCond, evalSrc, rawEnv, kwRaw, setKw, verifyInput, List.foldlM, Option.bind, hb]
-    · have hb : (average == "binary") = false := by simpa using ha
-      simp [verifyTree, evalVerify, evalCond, evalSrc, rawEnv, kwRaw, setKw, verifyInput, List.foldlM, Option.bind, hb]
-    · have hb : (average == "binary") = false := by simpa using ha
-      simp [verifyTree, evalVerify, evalCond, evalSrc, rawEnv, kwRaw, setKw, verifyInput, List.foldlM, Option.bind, hb]
-
 /-- a function of the standard shape IS the hand model's `oneShot` on the configuration its `metrics` keyword denotes -/
 theorem evalWrapper_std (sqrt : Rat → Rat) (w : Wrapper) (ms : Src) (h : StdWrapper w ms) (a : RawCfg)
     (b : Batch) (names : List String) (single : Bool)
+    (hinit : ∀ r, evalInit r initTree = constructWrapper r)
+    (hver : ∀ r b, evalVerify r b verifyTree = verifyInput r b)
     (hms : evalSrc (rawEnv a) noEnv ms = some (.metrics names single)) :
     evalWrapper sqrt w a b = oneShot sqrt { a with metrics := names, single := single } b := by
   obtain ⟨hv, hc, hk, ha⟩ := h
@@ -44,7 +19,7 @@ theorem evalWrapper_std (sqrt : Rat → Rat) (w : Wrapper) (ms : Src) (h : StdWr
   | mk metrics sg posLabel inputType average vocab kList =>
     simp only [evalWrapper, hv, hc, hk, ha, kwRaw, List.foldlM, hms, evalSrc, rawEnv, setKw, Option.bind,
       initDefault, noEnv]
-    simp [oneShot, evalVerify_verifyTree, evalInit_initTree, bind, Except.bind, verifyInput, labelsFor]
+    simp [oneShot, hver, hinit, bind, Except.bind, verifyInput, labelsFor]
 
 theorem avg_roundtrip (a : Average) : Average.ofValue? a.value = some a := by cases a <;> rfl
 
